@@ -224,19 +224,57 @@ async def _do_op(world, driver, rec, hooks):
 
 
 async def _caller(world, driver, c, recs, hooks):
-    await asyncio.sleep(c.get("start_us", 0) / 1e6)
+    if c.get("start_at_event") is not None:
+        # the caller enters the driver in the very loop iteration in which something else happens
+        # (a gateway message arrives, another caller writes): woken from the event log, it runs
+        # before whoever that event wakes
+        ev = asyncio.Event()
+        pre = {}
+        loop_ = asyncio.get_running_loop()
+
+        def fire():
+            # the first operation's task is created right here, inside the callback that logs the
+            # event: its first step is queued ahead of everything the event itself is going to wake
+            import contextvars
+            if pre.get("dead"):
+                return
+            unit0 = "%s.0" % c["id"]
+            rec0 = recs[unit0]
+            ctx = contextvars.copy_context()
+            ctx.run(world.unit.set, unit0)
+            rec0.t_start = world.now_us()
+            rec0.status = "running"
+            pre["t"] = loop_.create_task(_do_op(world, driver, rec0, hooks), name="op-" + unit0, context=ctx)
+            ev.set()
+        if world.log.triggers is None:
+            world.log.triggers = {}
+        world.log.triggers.setdefault(len(world.log) + c["start_at_event"], []).append(fire)
+        try:
+            await asyncio.wait_for(ev.wait(), 3.0)
+            world.probe("caller-started-on-an-event")
+        except asyncio.TimeoutError:
+            pre["dead"] = True      # the run never got that far: start now, the trigger is void
+    else:
+        pre = {}
+        await asyncio.sleep(c.get("start_us", 0) / 1e6)
     for i, op in enumerate(c["ops"]):
         unit = "%s.%d" % (c["id"], i)
         rec = recs[unit]
         tok = world.unit.set(unit)
-        rec.t_start = world.now_us()
-        rec.ev_start = world.log.add(world.loop.time(), "op-start", unit, op["kind"])
-        rec.status = "running"
+        if i == 0 and pre.get("t") is not None:
+            rec.ev_start = world.log.add(world.loop.time(), "op-start", unit, op["kind"])
+        else:
+            rec.t_start = world.now_us()
+            rec.ev_start = world.log.add(world.loop.time(), "op-start", unit, op["kind"])
+            rec.status = "running"
         try:
-            coro = _do_op(world, driver, rec, hooks)
-            if op.get("timeout_us") is not None:
-                coro = asyncio.wait_for(coro, op["timeout_us"] / 1e6)
-            t = asyncio.get_running_loop().create_task(coro, name="op-" + unit)
+            if i == 0 and pre.get("t") is not None:
+                t = pre["t"]
+            else:
+                coro = _do_op(world, driver, rec, hooks)
+                if op.get("timeout_us") is not None:
+                    coro = asyncio.wait_for(coro, op["timeout_us"] / 1e6)
+                t = asyncio.get_running_loop().create_task(coro, name="op-" + unit)
             if op.get("cancel_after_us") is not None:
                 def _cancel(t=t, rec=rec):
                     if not t.done():
